@@ -24,7 +24,14 @@ import (
 	"verifsim/model"
 )
 
-const verifDir = "/verif"
+// verifDir is where evidence, replays and the known-findings file live: /verif,
+// or the directory of the check script when it runs from a snapshot (vp run).
+var verifDir = func() string {
+	if d := os.Getenv("VERIF_DIR"); d != "" {
+		return d
+	}
+	return "/verif"
+}()
 
 func envSeed() uint64 {
 	if s := os.Getenv("VERIF_SEED"); s != "" {
